@@ -169,7 +169,8 @@ class Gen:
 
     def pseudo_function(self, depth, attached):
         toks = [simple(":", ctx="sel", wsmean="mustnot" if attached else "free")]
-        kind = self.pick(["not", "is", "where", "has", "nth-child", "nth-of-type", "slotted", "lang", "nth-child-of"])
+        # (`:host-context(...)` and `:hostile` are not `:host`)
+        kind = self.pick(["not", "is", "where", "has", "nth-child", "nth-of-type", "slotted", "lang", "nth-child-of", "host-context", "host-context"])
         if kind == "slotted":
             toks.append(simple(":", ctx="sel", wsmean="mustnot"))
             toks.append(func("slotted", ctx="sel", wsmean="mustnot"))
@@ -423,8 +424,8 @@ class Gen:
         r = self.r.random()
         sp = self.pick(["host"] * 8 + ["HOST", "Host"])
         if r < 0.7:
-            return {"t": "host", "decls": self.declarations(), "combo": None, "host_spelling": sp}
-        combo = self.pick(["func", "class", "descendant", "list", "attr", "attr-desc", "pseudo", "id", "pre-list", "pre-class", "pre-star", "pre-desc", "in-is", "pre-list-2", "in-is-first", "in-not-desc", "in-has"])
+            return {"t": "host", "decls": self.declarations(allow_urange=self.chance(0.25)), "combo": None, "host_spelling": sp}
+        combo = self.pick(["func", "class", "descendant", "list", "attr", "attr-desc", "pseudo", "id", "pre-list", "pre-class", "pre-star", "pre-desc", "in-is", "pre-list-2", "in-is-first", "in-not-desc", "in-has", "pre-list-func", "in-not-func", "pre-desc-func"])
         return {"t": "host", "decls": self.declarations(), "combo": combo, "host_spelling": sp}
 
     def at_rule(self, depth, sel_depth):
@@ -455,6 +456,10 @@ class Gen:
             if self.chance(0.25):
                 # ... and selector(), which does hold a selector
                 pre += [ident("and", ctx="prelude", ws=True), func("selector", ctx="prelude", ws=True, wsmean="must"), delim(".", ctx="prelude"), ident(self.pick(CLASSES), ctx="prelude", cls=True, wsmean="mustnot"), simple(")", ctx="prelude")]
+                self.n_class += 1
+            if self.chance(0.12):
+                # selector() below two levels of plain parentheses is a selector all the same
+                pre = [T("(", None, "(", ctx="prelude", ws=True), T("(", None, "(", ctx="prelude"), func("selector", ctx="prelude"), delim(".", ctx="prelude"), ident(self.pick(CLASSES), ctx="prelude", cls=True, wsmean="mustnot"), simple(")", ctx="prelude"), simple(")", ctx="prelude"), ident("and", ctx="prelude", ws=True), T("(", None, "(", ctx="prelude", ws=True), ident("display", ctx="prelude"), simple(":", ctx="prelude"), ident("grid", ctx="prelude", ws=True), simple(")", ctx="prelude"), simple(")", ctx="prelude")]
                 self.n_class += 1
             return {"t": "at", "name": "supports", "pre": pre, "body": "rules", "rules": self.rules(depth - 1, sel_depth)}
         if kind == "document":
@@ -517,6 +522,9 @@ class Gen:
         media = None
         if self.chance(0.45):
             media = self.pick(["screen", "paren", "screen-and-paren", "all", "all-and-paren", "not-all", "only-screen-and-paren", "list", "paren-and-paren", "general-enclosed", "screen-and-general"])
+        if conds and conds[-1] != ("layer", None) and self.chance(0.12):
+            # after layer(...) / supports(...) the identifier `layer` is a media type, not the keyword
+            media = self.pick(["layer-type", "layer-type-and-paren"])
         x = {"t": "import", "form": form, "path": path, "conds": conds, "media": media, "supports_variant": self.pick([0, 0, 1, 1, 2])}
         if self.chance(0.12):
             # function names are ASCII case-insensitive
